@@ -52,6 +52,11 @@ def load_linalg(mutant):
         # undo the repair of C13-no-pivoting: the row search stays, the
         # exchange is skipped
         edits = [('        if bigrow != rrcol:\n', '        if False:\n')]
+    elif mutant == 'stale-big':
+        # the pivot search compares with the original pivot only: it takes
+        # the last row exceeding it instead of the largest
+        edits = [('abs(m[nt*row + rrcol]) > abs(m[nt*bigrow + rrcol])',
+                  'abs(m[nt*row + rrcol]) > abs(m[nt*rrcol + rrcol])')]
     elif mutant == 'reltol-fix':
         # proposed repair of C13-abs-pivot-tol: a singularity threshold
         # relative to the largest entry of the matrix
@@ -120,21 +125,27 @@ def gj_inputs(c):
 def gj_record(c, ret, res):
     n, nb = c['n'], c['nb']
     ok = True
-    X = []
+    X, XF = [], []
     for i in range(n):
-        row = []
+        row, frow = [], []
         for j in range(nb):
             # undo the column scaling exactly, then quantise
             v = res[nb * i + j]
             v = math.ldexp(v, c['ce'][i]) if math.isfinite(v) else v
             k = quant(v, c['q'], c['lim'])
+            f = 0
             if k is None:
                 ok = False
                 k = 0
+            else:
+                # the next 20 bits: x * 2^(q+20) ~ k * 2^20 + f
+                f = int(round(math.ldexp(math.ldexp(v, c['q']) - k, 20)))
             row.append(k)
+            frow.append(f)
         X.append(row)
+        XF.append(frow)
     t = dict(c)
-    t.update(ret=0 if ret == 0.0 else 1, X=X, ok=ok)
+    t.update(ret=0 if ret == 0.0 else 1, X=X, XF=XF, ok=ok)
     return t
 
 
@@ -360,7 +371,7 @@ def expand(c):
     for index in range(c['from'], c['to']):
         yield dict(kind='gj', fam='n3-all', form='py', n=3, nb=len(c['B'][0]),
                    A=n3_matrix(index), B=c['B'], re=[0, 0, 0], ce=[0, 0, 0],
-                   q=c['q'], lim=c['lim'], mode='resid',
+                   q=c['q'], lim=c['lim'], mode='resid', den=1,
                    X0=[[0] * len(c['B'][0])] * 3, id='x%d' % index)
 
 
@@ -390,8 +401,7 @@ def main():
                 else:
                     raise ValueError(c['kind'])
             except Exception as ex:          # the helper raised
-                t = dict(id=c['id'], error='%s: %s' % (
-                    type(ex).__name__, ex))
+                t = dict(c, error='%s: %s' % (type(ex).__name__, ex))
             out.write(json.dumps(t) + '\n')
             out.flush()
         if cy:
